@@ -25,9 +25,11 @@ RULE = ('CSV files built by construction: 2-5 columns; (minibatch_size m, subsam
         'valid rows is k*m + t with t from the boundary set {0,1,m-1,1023,1024,1025,1026} (large-m regime, m in 1026..1500) or '
         'arbitrary t < m (small-m regime, m in 1..60, many batches, tail never used); malformed rows (too few / too many fields, '
         'empty line, single field) at generated positions incl. first/last, on and off the subsampling grid; quoted cells with '
-        'commas. Heuristic MI-numba-randomized or max-value-coverage, target-only or pairwise, annotated or plain names. '
+        'commas. Heuristic MI-numba-randomized or max-value-coverage, target-only or pairwise, annotated or plain names, '
+        'interaction order 1 or 2 (constructed features named "a AND b"). '
         'Non-trivial = >=2 batches, or a tail decision within 2 of 1024, or >=1 malformed row on the subsampling grid.')
-ASSUMPTIONS = ['per-batch triplets of the model are obtained by applying mixed_rank_graph to each MODEL batch (scoring itself is C05)',
+ASSUMPTIONS = ['per-batch triplets of the model are obtained by applying the batch scorer (compute_batch_ranking) to each MODEL batch '
+               '(scoring itself is C05, feature construction C10/C11)',
                'gzip input and multi-file globs are not generated (not in the statement)']
 
 VALUES = ['a', 'b', 'c', '', '1', '2', 'x,y', 'p q', '"q"', 'é']
@@ -53,7 +55,8 @@ def case_strategy(draw):
     return {'ncols': ncols, 'm': m, 's': s, 'k': k, 't': t, 'bad': bad, 'seed': draw(st.integers(0, 2**32 - 1)),
             'trail': draw(st.integers(0, 3)), 'offgrid_bad': draw(st.booleans()),
             'heuristic': draw(st.sampled_from(['MI-numba-randomized', 'max-value-coverage'])),
-            'pairwise': draw(st.booleans()), 'annot': draw(st.booleans()), 'label_pos': draw(st.integers(0, ncols - 1))}
+            'pairwise': draw(st.booleans()), 'annot': draw(st.booleans()), 'label_pos': draw(st.integers(0, ncols - 1)),
+            'order': draw(st.sampled_from([1, 1, 2])) if regime == 'small' else 1}
 
 
 def render(row):
@@ -198,7 +201,8 @@ def oracle(case, rec):
         args = stubs.make_args(heuristic=case['heuristic'], target_ranking_only='False' if case['pairwise'] else 'True',
                                minibatch_size=m, subsampling=s, data_path=os.path.join(tmp, 'data'), data_source='csv-raw',
                                output_folder=os.path.join(tmp, 'out'),
-                               include_cardinality_in_feature_names='True' if case['annot'] else 'False')
+                               include_cardinality_in_feature_names='True' if case['annot'] else 'False',
+                               interaction_order=int(case.get('order', 1)))
         # ---- phase 1: direct call of the streaming loop with spies ---------------------------------
         seen_batches = []
 
@@ -235,8 +239,9 @@ def oracle(case, rec):
         per_batch = []
         stubs.reset_globals()
         for b in batches:
-            df = pd.DataFrame(b, columns=cols)
-            per_batch.append(cr.mixed_rank_graph(df, args, stubs.InlinePool(), stubs.PBar()).triplet_scores)
+            # the implementation's own batch scorer (feature construction + scoring) on each MODEL batch
+            summary, _, _, _ = cr.compute_batch_ranking(b, set(), args, stubs.InlinePool(), cols, CapLog(), stubs.PBar())
+            per_batch.append(summary.triplet_scores)
         expected = median_table(per_batch)
         grouped = res[1]
         got = None if grouped is None else {(str(r.FeatureA), str(r.FeatureB)): float(r.Score) for r in grouped.itertuples()}
@@ -270,10 +275,11 @@ def oracle(case, rec):
         if exited or not os.path.exists(out_file):
             raise Violation(f'ranking task wrote no pairwise_ranks.tsv although {len(batches)} batches qualify', kind='C08/output')
         ranks = pd.read_csv(out_file, sep='\t', keep_default_na=False, na_values=[])
+        known = sorted({nm for pair in expected for nm in pair})
         got2 = {}
         scores = []
         for r in ranks.itertuples():
-            key = (strip_annot(str(r.FeatureA), cols), strip_annot(str(r.FeatureB), cols))
+            key = (strip_annot(str(r.FeatureA), known), strip_annot(str(r.FeatureB), known))
             if key in got2:
                 raise Violation(f'pairwise_ranks.tsv lists the ordered pair {key} twice', kind='C08/output')
             got2[key] = float(r.Score)
